@@ -3,7 +3,7 @@
    produces exactly the plain RFC encoding; round trip; totality of every decoder. *)
 From Coq Require Import List NArith ZArith Lia Bool.
 From Coq Require Import ZifyN ZifyNat ZifyBool.
-From Mant Require Import Prim.R Prim.Bytes Model.Llmnr Spec.C09 Proofs.C09Base Proofs.C09Name.
+From Mant Require Import Prim.R Prim.Bytes Gen.ConstsC09 Model.Llmnr Spec.C09 Proofs.C09Base Proofs.C09Name.
 Import ListNotations.
 Open Scope N_scope.
 
@@ -56,7 +56,7 @@ Theorem decode_message_wire d m :
 Proof.
   intros (Hid & Hfl & Hqd & Han & Hns & Har & o1 & o2 & o3 & o4 & W1 & W2 & W3 & W4)
          (_ & _ & _ & _ & _ & _ & Q & A1 & A2 & A3).
-  unfold decode_message, HeaderSize. pose proof (u16_at_lt _ _ _ Har) as Hl.
+  unfold decode_message, HeaderSize, c09_header_size. pose proof (u16_at_lt _ _ _ Har) as Hl.
   destruct (N.ltb_spec (lenN d) 12); [lia|].
   rewrite (be16_at_u16 _ _ _ Hid), (be16_at_u16 _ _ _ Hfl), (be16_at_u16 _ _ _ Hqd),
     (be16_at_u16 _ _ _ Han), (be16_at_u16 _ _ _ Hns), (be16_at_u16 _ _ _ Har). cbn [bind].
@@ -353,7 +353,7 @@ Qed.
 
 Theorem decode_message_total d : decode_message d <> Panic.
 Proof.
-  unfold decode_message, HeaderSize. destruct (N.ltb_spec (lenN d) 12) as [|Hle]; [discriminate|].
+  unfold decode_message, HeaderSize, c09_header_size. destruct (N.ltb_spec (lenN d) 12) as [|Hle]; [discriminate|].
   pose proof (be16_at_no_panic d 0) as H0. pose proof (be16_at_no_panic d 2) as H2.
   pose proof (be16_at_no_panic d 4) as H4. pose proof (be16_at_no_panic d 6) as H6.
   pose proof (be16_at_no_panic d 8) as H8. pose proof (be16_at_no_panic d 10) as H10.
